@@ -111,11 +111,11 @@ func buildImports(imports []*ast.ImportSpec) string {
 }
 
 func (g *Generator) extractTopFiels(pkg *packages.Package, st *ast.StructType, fields *[]*Field) {
-	//names of top-level fields that are left out but still hide promoted fields of the same name
-	hidden := make(map[string]bool)
+	//fields that are left out (name -> smallest depth) still hide deeper promoted fields of the same name
+	hidden := make(map[string]int32)
 	defer func() {
 		for _, f := range *fields {
-			if f.depth > 0 && hidden[f.name] {
+			if d, ok := hidden[f.name]; ok && f.depth > d {
 				f.isShadowed = true
 			}
 		}
@@ -132,7 +132,7 @@ func (g *Generator) extractTopFiels(pkg *packages.Package, st *ast.StructType, f
 		if len(f.Names) == 0 {
 			//embedded: gorm.Model
 			typ := pkg.TypesInfo.TypeOf(f.Type)
-			expandIfStruct(pkg, g.qualifier, 0, typ, isNew, fields)
+			expandIfStruct(pkg, g.qualifier, 0, typ, isNew, hidden, fields)
 			continue
 		}
 
@@ -144,14 +144,14 @@ func (g *Generator) extractTopFiels(pkg *packages.Package, st *ast.StructType, f
 			}
 
 			if strings.HasPrefix(name.Name, "_") {
-				hidden[name.Name] = true
+				hidden[name.Name] = 0
 				continue
 			}
 
 			if f.Tag != nil {
 				new := parseNewTag(f.Tag.Value)
 				if new == "-" {
-					hidden[name.Name] = true
+					hidden[name.Name] = 0
 					continue
 				}
 			}
@@ -283,7 +283,7 @@ func newBodyRec(buf *bytes.Buffer, fields []*Field, pointer int, depth int32, na
 	return i
 }
 
-func expandIfStruct(pkg *packages.Package, qf types.Qualifier, depth int32, t types.Type, isNew bool, fields *[]*Field) {
+func expandIfStruct(pkg *packages.Package, qf types.Qualifier, depth int32, t types.Type, isNew bool, hidden map[string]int32, fields *[]*Field) {
 	var stru *types.Struct
 	switch tt := t.(type) {
 	case *types.Pointer:
@@ -309,28 +309,29 @@ func expandIfStruct(pkg *packages.Package, qf types.Qualifier, depth int32, t ty
 			isEmbeded:     true,
 			typ:           t,
 		})
-		extractStructFields(pkg, qf, depth+1, stru, isNew, fields)
+		extractStructFields(pkg, qf, depth+1, stru, isNew, hidden, fields)
 	}
 }
 
-func extractStructFields(pkg *packages.Package, qf types.Qualifier, depth int32, st *types.Struct, isNew bool, fields *[]*Field) {
+func extractStructFields(pkg *packages.Package, qf types.Qualifier, depth int32, st *types.Struct, isNew bool, hidden map[string]int32, fields *[]*Field) {
 	for i := 0; i < st.NumFields(); i++ {
 		f := st.Field(i)
 
 		if f.Embedded() {
-			expandIfStruct(pkg, qf, depth, f.Type(), isNew, fields)
+			expandIfStruct(pkg, qf, depth, f.Type(), isNew, hidden, fields)
 			continue
 		}
 
-		//same exclusions as for top-level fields
-		if strings.HasPrefix(f.Name(), "_") {
-			continue
-		}
 		//unexported fields of a struct from another package cannot be set from here
+		//(and, being other identifiers, hide nothing)
 		if !f.Exported() && f.Pkg() != nil && f.Pkg().Path() != pkg.PkgPath {
 			continue
 		}
-		if parseNewTag(st.Tag(i)) == "-" {
+		//same exclusions as for top-level fields; a left-out field still hides deeper ones of its name
+		if strings.HasPrefix(f.Name(), "_") || parseNewTag(st.Tag(i)) == "-" {
+			if d, ok := hidden[f.Name()]; !ok || depth < d {
+				hidden[f.Name()] = depth
+			}
 			continue
 		}
 
